@@ -9,7 +9,7 @@ CONSTANTS
   MaxOps = 4
   MaxMinted = 3
   EmitAt = 0
-  ProbeDepth = 2
+  ProbeDepth = 1
 INIT GInit
 NEXT GNextC
 VIEW GView
